@@ -179,3 +179,56 @@ Section NoDollarFunAddr.
     - rewrite H1. exact H0.
   Qed.
 End NoDollarFunAddr.
+
+(* ---------- the calls ---------- *)
+From JP Require Import CallDefs SpecCalls SpecCallsCompose StackRules.
+Section NoDollarFunCalls.
+  Variable cfg : config.
+  Variable parse_float : string -> option num.
+  Variable regex_ok : string -> bool.
+  Variable ffun : string -> value -> option value.
+  Variable afun : string -> list value -> option value.
+  Variable regex_match : string -> string -> bool.
+  Hypothesis ffun_small : forall f v w, small v -> ffun f v = Some w -> small w.
+  Hypothesis afun_small : forall f l w, Forall small l -> afun f l = Some w -> small w.
+  Notation parse := (parse_with cfg parse_float regex_ok jsonpath_grammar).
+  Notation eval_run := (eval_run ffun afun regex_match).
+  Notation sc := (sc ffun afun regex_match).
+  Notation nav_allf := (nav_allf parse_float regex_match).
+  Notation fpres_f := (FiltChain.fpres cfg parse_float).
+  Notation fpres_u := (FunParse.fpres cfg).
+
+  Lemma sc_fchain_funs0 s l f fs doc : step_ok s = true -> forallb fstep_ok l = true -> forallb (fstep_okp parse_float regex_ok) l = true -> small doc ->
+    sc (fchain_fun_node0 cfg parse_float s l (f :: fs)) doc (Some [], doc) = calls_all ffun (f :: fs) (nav_allf doc (FS (RPlain s) :: l) ([], doc)).
+  Proof.
+    intros Hs Hl Hp Hsm. destruct (fchain_fun_node0_seg cfg parse_float s l (f :: fs)) as (b2 & En & Hb).
+    assert (Hall : forallb fstep_ok (FS (RPlain s) :: l) = true) by (cbn [forallb fstep_ok rstep_ok]; rewrite Hs, Hl; reflexivity).
+    assert (Hallp : forallb (fstep_okp parse_float regex_ok) (FS (RPlain s) :: l) = true) by (cbn [forallb fstep_okp]; exact Hp).
+    rewrite En, (sc_fchain_tail cfg parse_float regex_ok ffun afun regex_match (fpres_u (f :: fs)) ltac:(discriminate) l (FS (RPlain s)) b2 b2 Hall Hallp) by exact Hsm.
+    destruct (fin_fpres cfg f fs) as (c & Ef & Hc). unfold calls_all. apply flat_map_ext'. intros [p z]. rewrite Ef, (sc_funs cfg ffun afun regex_match). reflexivity.
+  Qed.
+
+  Lemma fchain_fun_node0_fcf s l fs : forallb fstep_ok l = true -> filters_call_free (fchain_fun_node0 cfg parse_float s l fs) = true.
+  Proof.
+    intros Hs. unfold fchain_fun_node0.
+    assert (H : Forall (fun kb : kind * basic => cfkind (fst kb)) (fpres_f l ++ fpres_u fs)).
+    { apply Forall_app. split.
+      - unfold FiltChain.fpres. induction l as [|y l IH]; [constructor|].
+        cbn [forallb] in Hs. apply andb_true_iff in Hs. destruct Hs as [H1 H2]. cbn [flat_map]. apply Forall_app. split; [apply fpre_cfk; exact H1|apply IH; exact H2].
+      - induction fs as [|f0 fs IH]; constructor; [exact I|exact IH]. }
+    cbn [filters_call_free]. rewrite (fin_cfk _ H). destruct s as [q k|k|ds|[|]|a b c0|u us]; reflexivity.
+  Qed.
+
+  (* the call log: for each value the steps and filters reach, in the order they reach them, f on it, then the next function on
+     what f returned, until one fails — and nothing else *)
+  Theorem fchain_fun_calls0 s l f fs doc st : step_ok s = true -> forallb fstep_ok l = true -> forallb (fstep_okp parse_float regex_ok) l = true ->
+    forallb fname_ok (f :: fs) = true -> forallb (fun_known cfg) (f :: fs) = true -> small doc -> ok st ->
+    exists t, parse (fchain_fun_path0 s l (f :: fs)) = ParseOk t /\
+              calls (snd (eval_run t doc st)) = calls st ++ calls_all ffun (f :: fs) (nav_allf doc (FS (RPlain s) :: l) ([], doc)).
+  Proof.
+    intros Hs Hl Hokp Hf Hk Hd Hok. exists (fchain_fun_node0 cfg parse_float s l (f :: fs)).
+    pose proof (parse_fchain_fun_path0 cfg parse_float regex_ok s l (f :: fs) Hs Hl Hokp Hf Hk) as Hp. split; [exact Hp|].
+    rewrite (eval_call_log ffun afun regex_match ffun_small afun_small _ doc st (parse_builds_wf cfg parse_float regex_ok _ _ Hp) (fchain_fun_node0_fcf s l (f :: fs) Hl) Hd Hok).
+    rewrite (sc_fchain_funs0 s l f fs doc Hs Hl Hokp Hd). reflexivity.
+  Qed.
+End NoDollarFunCalls.
